@@ -1,8 +1,8 @@
 (* Extract_sorted.v - extraction of the sorted slice (RBTree, Sorted) to OCaml; see Extract_xml.v. *)
 From Coq Require Extraction ExtrOcamlBasic.
-From LY Require Import Base RBTree Sorted.
+From LY Require Import Base RBTree Sorted Siblings.
 Extraction Language OCaml.
 Extraction "model_sorted.ml"
   N.add N.mul N.div N.modulo N.sub Z.add Z.mul Z.opp Z.of_N Z.abs_N Z.sub Z.ltb
   RBTree.rb_insert RBTree.rb_insert_max RBTree.rb_remove RBTree.rb_find RBTree.rb_check RBTree.inorder RBTree.size
-  Sorted.lyds_insert Sorted.lyds_unlink Sorted.lyds_append Sorted.lyds_dup Sorted.lyds_dup_nolyds Sorted.dup_first_meta Sorted.lyd_merge_list Sorted.has_key Sorted.lyds_split Sorted.lyds_merge Sorted.elt_cmp Sorted.elt_ideq.
+  Sorted.lyds_insert Sorted.lyds_unlink Sorted.lyds_append Sorted.lyds_dup Sorted.lyds_dup_nolyds Sorted.dup_first_meta Sorted.lyd_merge_list Sorted.has_key Sorted.lyds_split Sorted.lyds_merge Siblings.sib_insert Siblings.sib_move Siblings.remove_at Sorted.elt_cmp Sorted.elt_ideq.
